@@ -62,11 +62,17 @@ def rand_history(rng):
     ops = []
     n = rng.randint(3, 14)
     with_reload = rng.random() < 0.3
+    last = {}   # key -> the value spec it was last set to (for "the same metadata is entered again after a removal")
     while len(ops) < n:
         r = rng.random()
         k = rng.choice(KEYS)
+        if ops and ops[-1][0] in ("clear", "popitem", "del", "pop") and last and rng.random() < 0.5:
+            for kk in rng.sample(sorted(last), k=min(len(last), rng.randint(1, 3))):
+                ops.append(["set", kk, last[kk]])
+            continue
         if r < 0.4:
             ops.append(["set", k, rand_spec(rng)])
+            last[k] = ops[-1][2]
         elif r < 0.5:
             ops.append(["del", k])
         elif r < 0.57:
@@ -75,6 +81,7 @@ def rand_history(rng):
             ops.append(["popitem"])
         elif r < 0.7:
             ops.append(["update", [(rng.choice(KEYS), rand_spec(rng)) for _ in range(rng.randint(1, 3))]])
+            last.update({kk: sp for kk, sp in ops[-1][1]})
         elif r < 0.76:
             ops.append(["setdefault", k, rand_spec(rng)])
         elif r < 0.79:
